@@ -29,7 +29,7 @@ META = dict(
           "forLoop's emitted nest (ranges, index arrays, @tile) runs the body once per tuple of the product.  The model is tied to "
           "the library by running the public API on Serial and OpenMP devices (every operation of the property statement, each "
           "built-in reduction, lengths 0..67 and large, a tile size x tile iteration grid, forLoop range/array/dim combinations).",
-    note="Needs fixes/C18-1.patch (@tile inner bound) and fixes/C23-1..4.patch applied to /repo.  Known findings: findIndex "
+    note="Needs fixes/C18-1.patch (@tile inner bound) and fixes/C23-1..5.patch applied to /repo.  Known findings: findIndex "
          "returns the last match on Serial (any match on OpenMP) instead of the first; reduce with a localInit that is not an "
          "identity of a non-idempotent reduction (sum, multiply, bitXor) applies it 128 times.  Reductions that start from element "
          "0 (bitAnd, boolAnd, min, max without localInit) have no sequential counterpart on an empty array (OCCA raises).  "
@@ -367,7 +367,7 @@ def array_cases(rng, tier):
     out = []
     lens = [0, 0, 1, 1, 2, 3, 3, 5, 17, 17, 64, 67, 67, 127, 128, 128, 129, 255, 256, 257, 300, 300, 1000]
     big = [1025, 4097, 5000]
-    nc = 20 if tier == "quick" else 450
+    nc = 20 if tier == "quick" else 320
     for k in range(nc):
         n = rng.choice(lens) if rng.random() < (0.97 if tier == "quick" else 0.9) else rng.choice(big)
         if tier != "quick" and rng.random() < 0.3:
@@ -399,7 +399,7 @@ def array_cases(rng, tier):
 
 def range_cases(rng, tier):
     out = []
-    nc = 18 if tier == "quick" else 350
+    nc = 18 if tier == "quick" else 240
     for k in range(nc):
         x = rng.random()
         if tier == "quick":
@@ -493,7 +493,7 @@ def forloop_cases(rng, tier):
         shapes = [(s, 2) for s in SHAPES_QUICK]
     else:
         shapes = []
-        for _ in range(70):
+        for _ in range(45):
             no = rng.choice([1, 1, 2, 2, 3])
             outer = [(rng.choice("nra"), rng.choice([0, 0, 2, 3, 4])) for _ in range(no)]
             # an untiled @outer loop cannot follow a tiled one (it would sit inside the tile's @inner loop; OKL
